@@ -39,6 +39,13 @@ static bool invariant(const u16* link, const u16* cnt, const u16* par, bool with
 }
 static void load_arbitrary(AdaptiveHuffmanTree& t, bool withinCapacity) {
   vf_havoc(t.linkOrData.data(), sizeof g_l0); vf_havoc(t.subtreeCount.data(), sizeof g_c0); vf_havoc(t.parentIndex.data(), sizeof g_p0);
+#ifdef CHAIN
+  // deepest possible shape for NSYM symbols (a "caterpillar": every inner node has one leaf child, code lengths up to NSYM-1); which side the
+  // inner child sits on at each level, the symbols on the leaves and all counts stay symbolic
+  { const u16* l = t.linkOrData.data();
+    vf_assume(l[NC - 1] == NC - 3 && l[0] >= NC && l[1] >= NC);
+    for (unsigned k = 1; k + 1 < NSYM; k++) vf_assume((l[2 * k] == 2 * (k - 1) && l[2 * k + 1] >= NC) || (l[2 * k + 1] == 2 * (k - 1) && l[2 * k] >= NC)); }
+#endif
   vf_assume(invariant(t.linkOrData.data(), t.subtreeCount.data(), t.parentIndex.data(), withinCapacity));
   memcpy(g_l0, t.linkOrData.data(), sizeof g_l0); memcpy(g_c0, t.subtreeCount.data(), sizeof g_c0); memcpy(g_p0, t.parentIndex.data(), sizeof g_p0);
 }
